@@ -47,7 +47,7 @@ class C20(BaseCheck):
   REQUIRED_ANCHORS = ANCHORS
   REQUIRED_CLASSES = ('name:plain', 'name:x_', 'name:x__', 'name:_x', 'name:__x__', 'uri:tcp', 'uri:zk',
                       'uri:bad', 'result:error', 'result:later', 'inherited', 'function-name-differs', 'alias',
-                      'uri:tcp-read-again', 'kwargs:loaded-names')
+                      'uri:tcp-read-again', 'kwargs:loaded-names', 'ancestors-proxied-first')
   ASSUMPTIONS = ('public method = every user method that is not a dunder name (the property quantifies over names '
                  'with leading and trailing underscores, so _x and _x_ are judged like any other); names that collide with '
                  'another method\'s _async form or with the proxy base class are not generated',)
@@ -68,6 +68,7 @@ class C20(BaseCheck):
 
     # ---- build an interface chain
     depth = rng.randint(1, 3)
+    levels = []
     all_methods = {}
     base = object
     sigs = ['pos', 'default', 'varargs', 'kwargs', 'noargs']
@@ -106,12 +107,18 @@ class C20(BaseCheck):
             all_methods[alias] = ('plain', sig, level)
             classes.add('alias')
       base = type('Iface%d_%d' % (idx, level), (base,), ns)
+      levels.append(base)
     Iface = base
     # drop names colliding with another method's _async form
     names = set(all_methods)
     usable = {n: v for n, v in all_methods.items()
               if not (n.endswith('_async') and n[:-6] in names) and (n + '_async') not in names}
 
+    if depth > 1 and rng.random() < 0.5:
+      # clients for the services this one extends are built first, in the same process
+      classes.add('ancestors-proxied-first')
+      for anc in levels[:-1]:
+        ClientProxyBuilder.CreateServiceClient(anc)
     proxy_cls = ClientProxyBuilder.CreateServiceClient(Iface)
     disp = StubDispatcher()
     proxy = proxy_cls(disp)
